@@ -287,8 +287,17 @@ def runSql (c : Case) : CaseOut := Id.run do
             if (!okExtra || idl.eraseDups.length != idl.length) && bad.isNone then bad := some "re-delivery-row-not-of-this-group-and-interval"
             delivered := delivered.map (fun x => if x.1 == g && x.2.1 == a && x.2.2.1 == b then (g, a, b, idl) else x)
           | none =>
-            delivered := delivered ++ [(g, a, b, idl)]
-            emits := emits ++ [WinSpec.Ev.emit false a b idl g]
+            if late > 0 && delivered.any (fun d => d.2.1 == a && d.2.2.1 == b) then
+              -- the interval was delivered before, for other groups only: a late update that
+              -- brings this group its first result there; every row must be a row of the group in the interval
+              let okRows := idl.all fun i => evs.any fun e => match e with
+                | .arr i' (some t) g' => i' == i && g' == g && decide (a ≤ t) && decide (t < b)
+                | _ => false
+              if (!okRows || idl.eraseDups.length != idl.length) && bad.isNone then bad := some "re-delivery-row-not-of-this-group-and-interval"
+              delivered := delivered ++ [(g, a, b, idl)]
+            else
+              delivered := delivered ++ [(g, a, b, idl)]
+              emits := emits ++ [WinSpec.Ev.emit false a b idl g]
         | ["sentinel-lost"] => if bad.isNone then bad := some "sentinel-window-never-delivered"
         | _ => if bad.isNone then bad := some "unreadable-result-line"
     | _ => pure ()
